@@ -52,11 +52,56 @@ fn main() {
             "magic" => vmodel::gen_elem::gen_magic_batch(&mut d),
             "sugg" => vmodel::gen_sugg::gen_sugg_batch(&mut d, n / 5),
             "shapes" => vmodel::gen_elem::gen_shapes_batch(&mut d, n),
+            "c20" => vec![],
             other => panic!("unknown kind {}", other),
         }
     };
     let dir = std::path::Path::new(&out);
     std::fs::create_dir_all(dir.join("src")).expect("mkdir");
+    if kind == "c20" {
+        let mut bytes = Vec::new();
+        let mut k = 0u64;
+        while bytes.len() < n * 500 {
+            bytes.extend_from_slice(&vmodel::ev::seed_bytes(vmodel::ev::hash64(&(seed, "c20", k))));
+            k += 1;
+        }
+        let mut d = D::new(&bytes);
+        let mut specs = vmodel::gen::gen_batch(&mut d, &vmodel::gen::BatchCfg { n, max_depth: 2 });
+        vmodel::gen::hostile_rename(&mut specs, &mut d);
+        let base = specs.len();
+        let mut magic = vmodel::gen_elem::gen_magic_batch(&mut d);
+        // renumber the magic batch after the main one
+        for m in magic.iter_mut() {
+            m.id += base;
+            for f in m.magic.iter_mut() {
+                f.variant_recv = f.variant_recv.map(|x| if x == usize::MAX { x } else { x + base });
+                f.field_recv = f.field_recv.map(|x| if x == usize::MAX { x } else { x + base });
+            }
+            if let vmodel::spec::Body::Struct(fs) = &mut m.body {
+                for f in fs.iter_mut() {
+                    f.rust_name = format!("{}m", f.rust_name);
+                }
+            }
+        }
+        specs.extend(magic);
+        let extras = vmodel::emit::c20_extras(specs.len() + 1000, vmodel::gen::HOSTILE);
+        let (src, ranges) = vmodel::emit::emit_c20_source(&specs, &extras);
+        write_if_changed(&dir.join("Cargo.toml"), &vmodel::emit::cargo_toml_c20(&name));
+        write_if_changed(&dir.join("src/main.rs"), &src);
+        let meta = serde_json::json!({
+            "ranges": ranges,
+            "specs": specs,
+            "extras": extras.iter().map(|(id, s)| (format!("X{}", id), s.clone())).collect::<std::collections::BTreeMap<_, _>>(),
+        });
+        write_if_changed(&dir.join("receivers.json"), &serde_json::to_string(&meta).unwrap());
+        if let Ok(lock) = std::fs::read_to_string("/verif/harness/Cargo.lock") {
+            if !dir.join("Cargo.lock").exists() {
+                std::fs::write(dir.join("Cargo.lock"), lock).ok();
+            }
+        }
+        println!("vgen: {} receivers -> {}", ranges.len(), out);
+        return;
+    }
     write_if_changed(&dir.join("Cargo.toml"), &vmodel::emit::cargo_toml(&name, !a.contains_key("nodf")));
     write_if_changed(&dir.join("src/main.rs"), &vmodel::emit::emit_crate_source(&specs));
     if let Ok(lock) = std::fs::read_to_string("/verif/harness/Cargo.lock") {
